@@ -229,7 +229,9 @@ def ti_facts(ti):
     def walk(container, parent):
         for key in sorted(container.variants):
             v = container.variants[key]
-            variants[v.uid] = [v.id, v.name, v.type, parent, sorted(v.variants.keys()),
+            # the parent as the object itself says (its .parent attribute) - and it has to be the container it was found in
+            own = v.parent.uid if v.parent is not None else None
+            variants[v.uid] = [v.id, v.name, v.type, own if own == parent else "parent attribute %r, found below %r" % (own, parent), sorted(v.variants.keys()),
                                [v.paths.packages, v.paths.repository, v.paths.source_packages, v.paths.source_repository,
                                 v.paths.debug_packages, v.paths.debug_repository, v.paths.identity]]
             walk(v, v.uid)
